@@ -306,15 +306,15 @@ func (r *Resolver) VisitGrouping(expr *ast.Grouping) ast.VisitResult {
 
 func (r *Resolver) VisitFuncCall(expr *ast.FuncCall) ast.VisitResult {
 	// visit the passed arguments
-	for _, v := range expr.Args {
-		r.visit(v)
+	for _, name := range ast.SortedArgNames(expr.Args) {
+		r.visit(expr.Args[name])
 	}
 	return ast.VisitRecurse
 }
 
 func (r *Resolver) VisitStructLiteral(expr *ast.StructLiteral) ast.VisitResult {
-	for _, arg := range expr.Args {
-		r.visit(arg)
+	for _, name := range ast.SortedArgNames(expr.Args) {
+		r.visit(expr.Args[name])
 	}
 	return ast.VisitRecurse
 }
